@@ -387,9 +387,10 @@ def read_recording(path):
                 continue
             text = line[i:]
             head = line[:i]
-            if "Send:" in head:
+            h = head.rstrip()
+            if "Send:" in head or "Send -" in head or h.endswith("<"):
                 kind = "send"
-            elif "Received:" in head or "Recv" in head:
+            elif "Received:" in head or "Recv" in head or h.endswith(">"):
                 kind = "recv"
             else:
                 kind = "other"
